@@ -7,6 +7,7 @@ from cases import CaseSet
 from qgen import query3d, prop_list, offsets
 from wbgen import width
 from worlds import area_world, any_world
+from qgen import line_query
 
 ALL = [[1, 0, 0], [2, 0, 0], [2, 1, 0], [2, 2, 0], [2, 3, 0], [3, 0, 2], [3, 1, 1], [4, 0, 0], [5, 0, 0]]
 
@@ -70,7 +71,14 @@ def run(chk):
                 elif "max depth" in f:
                     f["max depth"] = max(f["max depth"], 1.5e5)
         n = len(wj["features"])
-        slot = cs.add_world(wj, model=modelled)
+        slot = cs.add_world(wj)
+        # slabs and faults: queries around them without grains (the part of these features that SlabFeature.v models),
+        # so that their operations / section interpolation are compared with the model bit for bit
+        for lf in [f for f in wj["features"] if f["model"] in ("subducting plate", "fault")]:
+            for _k in range(10):
+                lq, ld = line_query(rng, wj, sph, lf, spread=rng.choice([0.2, 0.5, 1.0]))
+                if ld >= 0:
+                    cs.p3(slot, lq, ld, [[1, 0, 0], [2, 0, 0], [2, 1, 0], [2, 2, 0], [2, 3, 0], [4, 0, 0], [5, 0, 0]])
         singles = [cs.add_world(single_feature_world(wj, i), model=False) for i in range(n)]
         queries = [query3d(rng, wj, sph) for _ in range(8)]
         if stacked:
@@ -80,6 +88,43 @@ def run(chk):
                      "full": [cs.p3(slot, pos, d, ALL) for pos, d in queries],
                      "cover": [[cs.p3(s, pos, d, [[4, 0, 0]]) for s in singles] for pos, d in queries],
                      "alone": [[cs.p3(s, pos, d, ALL) for s in singles] for pos, d in queries]})
+    # (f) operations of slabs and faults over an area feature: Cartesian, uniform / linear temperature and uniform / smooth
+    # composition with every operation, one or two sections; compared with SlabFeature.v bit for bit
+    from wbgen import Gen
+    from worlds import line_world
+    for wi in range(12 if chk.tier == "quick" else 150):
+        wj, sph, lf = line_world(rng, spherical=False, straight=rng.random() < 0.5, uniform_sections=rng.random() < 0.5,
+                                 allow_mass_conserving=False, extra_area=1.0)
+        gg = Gen(rng)
+        kind = lf["model"]
+        def simple_models():
+            kmax = "max distance fault center" if kind == "fault" else "max distance slab top"
+            tm = {"model": rng.choice(["uniform", "linear"]), "operation": gg.op()}
+            if tm["model"] == "uniform":
+                tm["temperature"] = float(round(rng.uniform(100, 900), 1))
+            else:
+                tm[kmax] = float(round(rng.uniform(5e4, 2e5)))
+                tm["center temperature" if kind == "fault" else "top temperature"] = float(round(rng.uniform(300, 900), 1))
+                tm["side temperature" if kind == "fault" else "bottom temperature"] = rng.choice([-1, float(round(rng.uniform(900, 1600), 1))])
+            cm = gg.slab_comp_model(kind)
+            cm["operation"] = gg.op(comp=True)
+            return {"temperature models": [tm], "composition models": [cm]}
+        for k in ("temperature models", "composition models", "grains models", "velocity models"):
+            lf.pop(k, None)
+        lf.update(simple_models())
+        for sg in lf["segments"] + [x for sc in lf.get("sections", []) for x in sc["segments"]]:
+            for k in ("temperature models", "composition models", "grains models", "velocity models"):
+                sg.pop(k, None)
+        for sc in lf.get("sections", []):
+            for k in ("temperature models", "composition models", "grains models", "velocity models"):
+                sc.pop(k, None)
+            if rng.random() < 0.5:
+                sc.update(simple_models())
+        slot = cs.add_world(wj)
+        for _k in range(12):
+            lq, ld = line_query(rng, wj, False, lf, spread=rng.choice([0.15, 0.3, 0.6]))
+            if ld >= 0:
+                cs.p3(slot, lq, ld, [[1, 0, 0], [2, 0, 0], [2, 1, 0], [2, 2, 0], [2, 3, 0], [4, 0, 0]])
     impl, model = cs.run()
     chk.evaluations = len(impl)
     bad = chk.correspond(impl, model, cs, max_ulp=0)
